@@ -84,12 +84,12 @@ CHECKS = {
  "C09": dict(
    text="Coq theorems: for every well-formed state and all a, b >= 0, elapse a then b equals elapse a+b for the Periodic scheduler, the "
         "Consumable stack regeneration, the Keydown generator and the mob's DOT tracker (entity models faithful to component/entity.py and "
-        "common/mob.py), and for 15 of the 16 stateful common component classes: damage events are a permutation (same names, values, hits), "
+        "common/mob.py), and for all 16 stateful common component classes (the hit-limited one under a proved reachable-state invariant): damage events are a permutation (same names, values, hits), "
         "final states agree up to the dead interval counter of an expired schedule, hence all views agree; well-formedness is an invariant of "
         "every reducer, so this holds in every reachable state; every elapsed notification carries the elapse time. Model compared in Coq "
         "with the real code on every run.",
-   note="Trusted: as C07. Integer ticks (exactly representable times, as the property's own quantifier restricts). Not proved: the capped "
-        "loop of HitLimitedPeriodicDamageComponent and the job-specific classes (two-execution comparison on the implementation only).",
+   note="Trusted: as C07. Integer ticks (exactly representable times, as the property's own quantifier restricts). Not modelled: the "
+        "job-specific classes (two-execution comparison on the implementation only).",
    technique="Coq proof (strong induction on the first chunk, invariants, permutation lemmas) over hand-written executable models + Coq-evaluated correspondence + implementation-side two-execution search",
    design="7 C09"),
  "C10": dict(
